@@ -97,9 +97,10 @@ PROPS["C02"] = {
 
 PROPS["C13"] = {
     "module": "CqlVerif.Props.C13",
+    "gens": ["gate"],
     "streams": [{"name": "gate", "quick": 300, "thorough": 6000}],
     "shrink": False,
-    "claim": "Lean theorems gate_ok (every version byte x opcode byte x configured maximum x decodable-or-not, via a kernel-checked finite table lifted by an abstraction lemma), gate_closed_form, out_of_range_never_routed, startup_one_frame, unsupported_compression_only_error over Model/Front; tied to proxy.go by the gate stream: one fresh connection per probe against the real proxy (known versions x both directions x defined opcodes [all 256 in thorough] x every maximum, unknown version bytes) plus handshake sequences",
+    "claim": "Lean theorem gate_shape_ok over the regenerated shape of client.Receive (Gen/GateFacts.lean: order of header decode, version gate, body decode and dispatch; the gate's condition and body; every case of the dispatch) against Spec/GateShape; Lean theorems gate_ok (every version byte x opcode byte x configured maximum x decodable-or-not, via a kernel-checked finite table lifted by an abstraction lemma), gate_closed_form, out_of_range_never_routed, startup_one_frame, unsupported_compression_only_error over Model/Front; tied to proxy.go by the gate stream: one fresh connection per probe against the real proxy (known versions x both directions x defined opcodes [all 256 in thorough] x every maximum, unknown version bytes) plus handshake sequences",
     "note": "trusted: Lean kernel, hand-written Front model + e2e correspondence; the pinned protocol library's header/body decoding is modelled (which opcodes are valid, which minimal bodies decode), not verified; TLS listener not covered",
     "rule": "gate: X probes = one frame with a chosen version/direction byte and opcode (body rendered by the reference codec for that version) followed by OPTIONS to test usability; handshake sequences of OPTIONS/STARTUP(compression names in any case, unknown, empty)/REGISTER/QUERY/gate probes; compared per frame: reply class and count, frames reaching the backend; distinct = distinct sequences; non-trivial = all",
     "trusted_base": [KERNEL, DRIVER, HARNESS, "Model/Front.lean hand-written", "GateSpec orders versions numerically, as the gate does (v5 < DSEv1 < DSEv2)"],
